@@ -189,11 +189,11 @@ func CheckRecRules(r *verifsim.Run, t *Trace, p RecParams) {
 		if t.Ev[rc.StartEv].Kind != 'F' {
 			continue
 		}
-		if failedCallIn(t, rc.StartEv) {
-			// a failed pre-trigger write aborts the start half-way: the length of that
-			// recording is C12's business (relaxation: this recording only)
+		// relaxation under faults (this recording only): a failed pre-trigger write aborts the start half-way
+		// and the recording may end early; it still never runs past its limit
+		startFailed := failedCallIn(t, rc.StartEv)
+		if startFailed {
 			r.Probe("recording-with-failed-start-write")
-			continue
 		}
 		pos, lastMotion := 0, 0
 		done := false
@@ -226,6 +226,10 @@ func CheckRecRules(r *verifsim.Run, t *Trace, p RecParams) {
 						written = true
 					}
 				}
+				if !written && startFailed {
+					done = true
+					continue
+				}
 				if !written {
 					what := "later-frame"
 					if pos == 1 {
@@ -243,6 +247,9 @@ func CheckRecRules(r *verifsim.Run, t *Trace, p RecParams) {
 				stoppedHere := rc.StopEv == j
 				if pos >= limit && !stoppedHere {
 					r.Violate("C03", "C03.late", which, "recording %d: position %d reached the limit %d (last motion at %d, min %d, max %d) but the recording was not ended", k, pos, limit, lastMotion, p.MinF, p.MaxF)
+					done = true
+				} else if pos < limit && stoppedHere && startFailed {
+					r.Probe("recording-ended-early-after-failed-start-write")
 					done = true
 				} else if pos < limit && stoppedHere {
 					r.Violate("C03", "C03.early", which, "recording %d ended at position %d, limit is %d (last motion at %d, min %d, max %d)", k, pos, limit, lastMotion, p.MinF, p.MaxF)
